@@ -20,8 +20,9 @@ import (
 // used over a real record-marked TCP connection.
 
 type vfRM struct {
-	c   net.Conn
-	xid uint32
+	c    net.Conn
+	xid  uint32
+	frag int // when > 0, calls are sent as records cut into fragments of this many bytes
 }
 
 func vfDialRM(port int) (*vfRM, error) {
@@ -38,9 +39,19 @@ func (r *vfRM) call(prog, proc uint32, args []byte) (raw []byte, closed bool, er
 	r.xid++
 	r.c.SetDeadline(time.Now().Add(30 * time.Second))
 	msg := append(xdrw.CallHeader(r.xid, prog, 3, proc, vfRootCred()), args...)
-	if _, err := r.c.Write(xdrw.Record(msg)); err != nil {
-		return nil, true, nil
+	rec := xdrw.Record(msg)
+	if r.frag > 0 && len(msg) > r.frag {
+		sizes := make([]int, (len(msg)-1)/r.frag)
+		for i := range sizes {
+			sizes[i] = r.frag
+		}
+		rec = xdrw.Fragments(msg, sizes)
 	}
+	// the reply of a dropped connection may arrive before the whole request was written:
+	// write from a helper so that a reset while writing still lets the reader see EOF
+	wdone := make(chan error, 1)
+	go func() { _, e := r.c.Write(rec); wdone <- e }()
+	defer func() { <-wdone }()
 	var out []byte
 	for {
 		var h [4]byte
@@ -84,13 +95,13 @@ func (r *vfRM) nfs(proc uint32, args []byte) (*rfc.Res, bool, error) {
 
 func TestVerif_C23(t *testing.T) {
 	rec := evid.New("C23")
-	rec.Rule = "TransferSize in {4096, 65536 (default), 262144, 1MiB, 2MiB} set at construction and changed at runtime (UpdateTuningOptions / UpdateExportOptions); FSINFO decoded; WRITE and READ with counts {1, pref, max-1, max} and the neighbourhood of TransferSize, sent over a real record-marked TCP connection; distinct = (transfer size, how set, op, count class, outcome) tuples"
+	rec.Rule = "TransferSize in {1, 100, 4096, 4097, 5000, 65535, 65536 (default), 70000, 262144, 1MiB-4096, 1MiB-4095, 1MiB, 2MiB} set at construction and changed at runtime (UpdateTuningOptions / UpdateExportOptions); FSINFO decoded; WRITE and READ with counts {1, pref, max-1, max} and the neighbourhood of TransferSize, sent over a real record-marked TCP connection as one fragment and cut into 64 KiB / 4 KiB / 512-byte fragments; distinct = (transfer size, how set, op, count class, outcome) tuples"
 	defer rec.Write()
-	sizes := []int{4096, 0, 262144, 1 << 20, 2 << 20}
-	for _, ts := range sizes {
-		for _, how := range []string{"construction", "UpdateTuningOptions", "UpdateExportOptions"} {
-			if evid.Tier() == "quick" && how != "construction" && (ts == 4096 || ts == 2<<20) {
-				continue
+	sizes := []int{4096, 0, 262144, 1 << 20, 2 << 20, 5000, 70000, 100, 1<<20 - 4096, 1<<20 - 4095, 4097, 65535, 1}
+	for i, ts := range sizes {
+		for j, how := range []string{"construction", "UpdateTuningOptions", "UpdateExportOptions"} {
+			if evid.Tier() == "quick" && i != 1 && (i+j)%3 != 0 {
+				continue // quick: every size once, rotating through the three ways of setting it; the default all three ways
 			}
 			vfC23Run(rec, ts, how)
 		}
@@ -197,13 +208,36 @@ func vfC23Run(rec *evid.Rec, ts int, how string) {
 		}
 		return "small"
 	}
+	type wcase struct {
+		cnt  uint32
+		frag int
+	}
+	var wcases []wcase
 	for _, cnt := range counts(f.Wtpref, f.Wtmax) {
+		wcases = append(wcases, wcase{cnt, 0})
+		if cnt == f.Wtmax || cnt == f.Wtpref {
+			for _, fr := range []int{65536, 4096, 512} {
+				if int(cnt) > fr {
+					wcases = append(wcases, wcase{cnt, fr})
+				}
+			}
+		}
+	}
+	for _, wc := range wcases {
+		cnt := wc.cnt
 		data := make([]byte, cnt)
 		for i := range data {
 			data[i] = byte(i)
 		}
 		rec.Eval(1)
+		conn.frag = wc.frag
 		r, closed, err := conn.nfs(7, xdrw.ArgWrite(w, 0, cnt, 2, data))
+		conn.frag = 0
+		wdesc, fsig := desc, ""
+		if wc.frag > 0 {
+			wdesc = fmt.Sprintf("%s, record cut into %d-byte fragments", desc, wc.frag)
+			fsig = "/fragmented-record"
+		}
 		out := "ok"
 		switch {
 		case err != nil:
@@ -212,21 +246,21 @@ func vfC23Run(rec *evid.Rec, ts int, how string) {
 			reconnect()
 		case closed:
 			out = "connection-dropped"
-			rec.Violate("C23/write-within-wtmax-drops-connection", fmt.Sprintf("WRITE count=%d <= wtmax=%d: the server closed the connection [%s]", cnt, f.Wtmax, desc), nil)
+			rec.Violate("C23/write-within-wtmax-drops-connection"+fsig, fmt.Sprintf("WRITE count=%d <= wtmax=%d: the server closed the connection [%s]", cnt, f.Wtmax, wdesc), nil)
 			if !reconnect() {
 				return
 			}
 		case r.Status == 22:
 			out = "INVAL"
-			rec.Violate("C23/write-within-wtmax-refused-as-invalid", fmt.Sprintf("WRITE count=%d <= wtmax=%d answered NFS3ERR_INVAL [%s]", cnt, f.Wtmax, desc), nil)
+			rec.Violate("C23/write-within-wtmax-refused-as-invalid"+fsig, fmt.Sprintf("WRITE count=%d <= wtmax=%d answered NFS3ERR_INVAL [%s]", cnt, f.Wtmax, wdesc), nil)
 		case r.Status != 0:
 			out = fmt.Sprintf("status=%d", r.Status)
-			rec.Violate("C23/write-within-wtmax-failed", fmt.Sprintf("WRITE count=%d <= wtmax=%d answered status %d [%s]", cnt, f.Wtmax, r.Status, desc), nil)
+			rec.Violate("C23/write-within-wtmax-failed"+fsig, fmt.Sprintf("WRITE count=%d <= wtmax=%d answered status %d [%s]", cnt, f.Wtmax, r.Status, wdesc), nil)
 		case r.Count == 0:
 			out = "ok-zero"
-			rec.Violate("C23/write-within-wtmax-stored-nothing", fmt.Sprintf("WRITE count=%d answered OK with count 0 [%s]", cnt, desc), nil)
+			rec.Violate("C23/write-within-wtmax-stored-nothing"+fsig, fmt.Sprintf("WRITE count=%d answered OK with count 0 [%s]", cnt, wdesc), nil)
 		}
-		rec.Distinct(fmt.Sprintf("ts=%d|%s|WRITE|%s|%s", eff, how, cls(cnt, f.Wtpref, f.Wtmax), out))
+		rec.Distinct(fmt.Sprintf("ts=%d|%s|WRITE|%s|frag=%d|%s", eff, how, cls(cnt, f.Wtpref, f.Wtmax), wc.frag, out))
 	}
 	for _, cnt := range counts(f.Rtpref, f.Rtmax) {
 		rec.Eval(1)
